@@ -248,6 +248,50 @@ Proof.
   cbn [fst]. now rewrite nibbles_to_key_le_of_bytes.
 Qed.
 
+
+(* round 4: ... and also when the trimmed prefix does change the map's answer (the corner where
+   guard_trim_limit and the order guard hold at once): the order guard alone is exact *)
+Lemma remove_first_keeps {A} (f : A -> bool) l x : forall n, In x l -> f x = false -> In x (remove_first n f l).
+Proof.
+  induction l as [|y l IH]; intros n H F; [contradiction|]. cbn [remove_first].
+  destruct H as [->|H].
+  - rewrite F. left. reflexivity.
+  - destruct (f y); [destruct n; [right; exact H|apply IH; auto]|right; apply IH; auto].
+Qed.
+
+Theorem guard_limit_order_exact_all t m p l : Rep t m -> l <> 0%N ->
+  guard_limit_order_go m p l = true ->
+  snd (trie_step repaired t (OpClearLimit p l)) <> snd (bm_step m (OpClearLimit p l)).
+Proof.
+  intros R Z Go. destruct (order_guard_exact_keys t m p l R Z Go) as [Inc D].
+  pose proof (order_guard_count t m p l R Z Go) as Cnt.
+  pose proof (Rep_sorted_bmap t m R) as Srt.
+  cbn [trie_step bm_step repaired i_clear_limit i_entries].
+  rewrite bm_clear_prefix_limit_spec.
+  destruct (trie_clear_prefix_limit t p l) as [[t' d] a]. cbn [fst snd] in *.
+  intros Eq. inversion Eq as [[E1 E2 E3]].
+  apply (f_equal (map fst)) in E3. unfold trie_entries, bm_listing in E3. rewrite !map_map in E3. cbn [fst] in E3.
+  change (fun x : list byte * value => fst x) with (@fst (list byte) value) in E3.
+  change (bmatch p) with (bmatch_b p) in *.
+  destruct (forallb (bmatch_b p) (firstn (N.to_nat l) (filter (gmatch p) m))) eqn:Fa.
+  - destruct (remove_first_agree (bmatch_b p) (gmatch p) (bmatch_gmatch p) m (N.to_nat l) Fa) as [A1 _].
+    apply D. rewrite A1, <- E3, map_map.
+    apply map_ext_in. intros [k v] H. apply Inc in H. apply kv_of_bmap_in in H as (kb & -> & _).
+    cbn [fst]. now rewrite nibbles_to_key_le_of_bytes.
+  - apply forallb_false_exists in Fa as (x & Hx & Bx).
+    pose proof (byte_prefix_initial_segment p m (N.to_nat l) x Srt Hx Bx) as Lt.
+    destruct Cnt as [Cnt|Cnt]; [lia|].
+    assert (Hm : In x m /\ gmatch p x = true).
+    { apply In_firstn in Hx. apply filter_In in Hx. exact Hx. }
+    destruct Hm as [Hm Gx].
+    pose proof (remove_first_keeps (bmatch_b p) m x (N.to_nat l) Hm Bx) as Kx.
+    assert (Kf : In (fst x) (map fst (remove_first (N.to_nat l) (bmatch_b p) m))) by (apply in_map; exact Kx).
+    rewrite <- E3 in Kf. apply in_map_iff in Kf as ([k v] & Ek & Hk). cbn [fst] in Ek.
+    pose proof (Cnt _ Hk) as Nm. apply Inc in Hk. apply kv_of_bmap_in in Hk as (kb & -> & _).
+    rewrite nibbles_to_key_le_of_bytes in Ek. subst kb.
+    unfold has_prefix in Nm. cbn [fst] in Nm. unfold gmatch, go_prefix in Gx. unfold pn_of in Nm. congruence.
+Qed.
+
 (* ---- the trie is the ordered map under the Go matching rule, also inside prefix-trim and
    clear-limit-zero ---- *)
 Fixpoint guards_go_free (m : bmap) (t : trie) (ops : list op) : bool :=
